@@ -322,7 +322,8 @@ class Representer(SafeRepresenter):
         reduce = (list(reduce)+[None]*5)[:5]
         function, args, state, listitems, dictitems = reduce
         args = list(args)
-        if state is None:
+        no_state = state is None
+        if no_state:
             state = {}
         if listitems is not None:
             listitems = list(listitems)
@@ -338,7 +339,8 @@ class Representer(SafeRepresenter):
             newobj = False
         function_name = '%s.%s' % (function.__module__, function.__name__)
         if not args and not listitems and not dictitems \
-                and isinstance(state, dict) and newobj:
+                and isinstance(state, dict) and newobj \
+                and not (no_state and hasattr(data, '__setstate__')):
             return self.represent_mapping(
                     'tag:yaml.org,2002:python/object:'+function_name, state)
         if not listitems and not dictitems  \
